@@ -97,6 +97,9 @@ func (st *pstate) intercept(fr *frame, name string, fn *ssa.Function, args []val
 		return in(st, fr, fn, args), true
 	}
 	if ext, ok := externals[name]; ok {
+		if fn.Blocks == nil && fn.Pkg != nil && anySymArg(args) {
+			fn.Pkg.Build() // on-demand SSA construction
+		}
 		if anySymArg(args) && fn.Blocks != nil {
 			return nil, false // interpret the real body symbolically
 		}
